@@ -52,7 +52,8 @@ if "def" in ast.unparse(ast.parse("𝕕𝕖𝕗 = 1")):
     def _mince(v):
         # We refer to this transformation as "keyword mincing"
         # in documentation.
-        return chr(ord(v[0]) - ord("a") + ord("𝐚")) + v[1:]
+        a, bold_a = ("A", "𝐀") if v[0].isupper() else ("a", "𝐚")
+        return chr(ord(v[0]) - ord(a) + ord(bold_a)) + v[1:]
 
     def _is_kw(v):
         return (
@@ -69,7 +70,12 @@ if "def" in ast.unparse(ast.parse("𝕕𝕖𝕗 = 1")):
                 continue
             for field in node._fields:
                 v = getattr(node, field, None)
-                if _is_kw(v):
+                if _is_kw(v) or (
+                        # As an attribute or a keyword argument, even
+                        # these are only names.
+                        type(node) in (ast.Attribute, ast.keyword)
+                        and type(v) is str
+                        and v in ("True", "False", "None")):
                     setattr(node, field, _mince(v))
                 elif (type(node) in (ast.alias, ast.ImportFrom)
                         and type(v) is str and "." in v):
